@@ -44,6 +44,14 @@ Proof.
   injection E as -> E. injection L as L. destruct (IH _ _ _ L E) as [-> ->]. auto.
 Qed.
 
+Lemma skipn_add : forall {A} a b (l : list A), skipn a (skipn b l) = skipn (a + b) l.
+Proof.
+  intros A a b. revert a. induction b as [|b IH]; intros a l.
+  - rewrite Nat.add_0_r. reflexivity.
+  - destruct l as [|x l]; [rewrite !skipn_nil; reflexivity|].
+    cbn [skipn]. rewrite IH. replace (a + S b)%nat with (S (a + b)) by lia. reflexivity.
+Qed.
+
 (* ------------------------------------------------------------------ uvarint *)
 Lemma put_uvarint_f_nonempty : forall f x, put_uvarint_f f x <> [].
 Proof. intros [|f] x; cbn [put_uvarint_f]; [|destruct (x <? 128)]; discriminate. Qed.
@@ -1139,3 +1147,185 @@ Proof.
   rewrite S3, L2, S2, S5, <- D1. auto.
 Qed.
 End WriteLayout.
+
+(* ================================================================== a handshake frame may carry data
+   A wire-compatible peer need not size its Writes as the Go code does: the delimited AuthSig
+   message and the first bytes of the application stream may share a Write (and so a sealed frame),
+   or the message may be spread over several Writes.  Whatever the split, the reader takes the
+   message off the stream and not one byte more: what follows it stays in recvBuffer / on the
+   conn and is what the data-phase Reads return. *)
+Section CarryData.
+Variables key cipher : Type.
+Variable seal : key -> bytes -> bytes -> cipher.
+Variable open : key -> bytes -> cipher -> option bytes.
+Variable pool : bytes -> bytes.
+Variable enc : authmsg -> bytes.
+Variable dec : bytes -> option authmsg.
+Variable k : key.
+Hypothesis open_seal : forall n p, open k n (seal k n p) = Some p.
+
+Notation auth_recv := (auth_recv key cipher open dec).
+Notation wire_bytes := (auth_wire_bytes enc).
+
+(* the peer's Writes [ws], from the zero nonce, spell  uvarint(len) ++ enc m ++ stream  in any
+   split whatsoever *)
+Lemma handshake_frame_may_carry_data : forall (m : authmsg) (ws : list bytes) (stream : bytes)
+    (caps : list nat) st1 am conn1 rs st2 conn2,
+  N.of_nat (length (enc m)) <= max_msg_size ->
+  concat ws = wire_bytes m ++ stream ->
+  let W := run_writes key cipher seal pool k zero_nonce ws in
+  no_panic W ->
+  auth_recv k (map EvBlock (all_sent W)) = (st1, am, conn1) ->
+  run_reads key cipher open k st1 conn1 caps = (rs, st2, conn2) ->
+  am = dec (enc m) /\
+  (exists j, (j <= length (all_sent W))%nat /\ r_nonce st1 = nonce_of P0 (N.of_nat j) /\
+             conn1 = map EvBlock (skipn j (all_sent W))) /\
+  (exists rest, stream = concat (map rres_data rs) ++ rest) /\
+  Forall (fun r => rres_ok r = true \/ r = RErrIO) rs /\
+  (In RErrIO rs -> concat (map rres_data rs) = stream).
+Proof.
+  intros m ws stream caps st1 am conn1 rs st2 conn2 Hm Hws W NP E1 E2.
+  destruct (run_writes_spec key cipher seal pool k P0 P0_len ws 0 ltac:(unfold max_uint64; lia))
+    as (chunks & extra & S).
+  change (nonce_of P0 0) with zero_nonce in S. fold W in S.
+  destruct S as [S1 S2 S3 S3w S4 S5 (rest0 & D1 & D2)].
+  specialize (D2 NP). subst rest0. rewrite app_nil_r in D1.
+  fold (sent key cipher seal pool k P0 0 chunks) in S2.
+  unfold ModelAuth.auth_recv in E1.
+  destruct (read_delimited key cipher open k {| r_buf := []; r_nonce := zero_nonce |}
+              (map EvBlock (all_sent W))) as [[st1' r1] conn1'] eqn:Ed.
+  injection E1 as -> <- ->.
+  apply (delimited_spec key cipher open k
+           (linv key cipher seal pool k P0 0 chunks []) False False
+           (live_step key cipher seal open pool k P0 P0_len open_seal 0 chunks S1 S4 [])
+           (enc m) stream) in Ed; [| exact Hm |].
+  2:{ exists 0%nat, []. split; [apply (rinv_init P0 P0_len 0 chunks S4)|].
+      cbn [skipn r_buf app]. split; [rewrite app_nil_r, S2; reflexivity|].
+      rewrite <- D1, Hws. unfold auth_wire_bytes. rewrite <- app_assoc. reflexivity. }
+  destruct Ed as [[] | [[[] _] | [-> (j & del & I & Ec & Er)]]].
+  rewrite app_nil_r in Ec. subst conn1.
+  destruct (run_reads_genuine key cipher seal open pool k P0 P0_len open_seal 0 chunks S1 S4
+              caps st1 j del rs st2 conn2 I E2) as (j' & I' & C' & F' & D').
+  assert (Hdel : del = wire_bytes m).
+  { pose proof (ri_data _ _ _ _ _ _ I) as X.
+    assert (Y : concat chunks = del ++ stream).
+    { rewrite <- (firstn_skipn j chunks), concat_app, <- X, Er, app_assoc. reflexivity. }
+    rewrite <- D1, Hws in Y. apply app_inv_tail in Y. symmetry. exact Y. }
+  split; [reflexivity|]. split.
+  { exists j. split; [rewrite S2, sent_length; exact (ri_j _ _ _ _ _ _ I)|].
+    split; [exact (ri_nonce _ _ _ _ _ _ I)|]. rewrite S2. reflexivity. }
+  split.
+  { destruct (rinv_prefix _ _ _ _ _ _ I') as (r1 & X).
+    rewrite <- D1, Hws, Hdel, <- app_assoc in X. apply app_inv_head in X. exists r1. exact X. }
+  split; [exact F'|].
+  intro HIO. specialize (D' HIO). rewrite <- D1, Hws, Hdel in D'. apply app_inv_head in D'. exact D'.
+Qed.
+
+(* the case of the hand-rolled peer: ONE Write of  message ++ extra  that fits a frame.  The
+   reader comes out of the handshake with exactly [extra] in recvBuffer, counter 1, and the conn
+   where that frame ended *)
+Section OneFrame.
+Variable m : authmsg.
+Variable extra : bytes.
+Variable tail : list (conn_ev cipher).
+Let data0 : bytes := wire_bytes m ++ extra.
+Let c0 : cipher := seal k zero_nonce (mk_frame data0 (pool zero_nonce)).
+Hypothesis Hfit : (length data0 <= data_max_size)%nat.
+
+Let st_after (n : nat) : rstate := {| r_buf := skipn n data0; r_nonce := nonce_of P0 1 |}.
+
+Definition inv1 (st : rstate) (conn : list (conn_ev cipher)) (rem : bytes) : Prop :=
+  (st = {| r_buf := []; r_nonce := zero_nonce |} /\ conn = EvBlock c0 :: tail /\ rem = data0) \/
+  (exists n, (1 <= n)%nat /\ st = st_after n /\ conn = tail /\ rem = skipn n data0).
+
+Lemma inv1_step : forall st conn rem cap st' r conn',
+  inv1 st conn rem -> rem <> [] -> (1 <= cap)%nat ->
+  read key cipher open k st cap conn = (st', r, conn') ->
+  False \/ (False /\ rres_ok r = false) \/
+  (exists d rem', r = ROk d /\ d <> [] /\ (length d <= cap)%nat /\ rem = d ++ rem' /\
+                  inv1 st' conn' rem').
+Proof.
+  intros st conn rem cap st' r conn' I Hne Hcap E. right. right.
+  destruct I as [(-> & -> & ->) | (n & Hn & -> & -> & ->)].
+  - unfold read in E. cbn [r_buf r_nonce length] in E.
+    change (0 <? 0)%nat with false in E. cbv iota in E.
+    unfold c0 in E. rewrite open_seal in E.
+    change zero_nonce with (nonce_of P0 0) in E.
+    rewrite (incr_nonce_of P0 0 P0_len) in E by reflexivity.
+    change (0 =? max_uint64) with false in E. cbv iota in E.
+    rewrite (frame_parse_len _ _ Hfit) in E.
+    replace (N.of_nat data_max_size <? N.of_nat (length data0)) with false in E
+      by (symmetry; apply N.ltb_ge; lia).
+    rewrite Nat2N.id, (frame_parse_chunk _ _ Hfit) in E.
+    destruct (take_facts data0 [] cap Hne Hcap) as (T1 & T2 & T3).
+    rewrite !app_nil_r in T3.
+    set (n := Nat.min cap (length data0)) in *.
+    assert (Hn : (1 <= n)%nat).
+    { unfold n. destruct data0; [congruence | cbn [length]; lia]. }
+    assert (Est : st' = st_after n /\ r = ROk (firstn n data0) /\ conn' = tail).
+    { destruct (n <? length data0)%nat eqn:En; injection E as <- <- <-; unfold st_after;
+        repeat split.
+      apply Nat.ltb_ge in En. rewrite skipn_all2 by exact En. reflexivity. }
+    destruct Est as (-> & -> & ->).
+    exists (firstn n data0), (skipn n data0). split; [reflexivity|]. split; [exact T1|].
+    split; [exact T2|]. split; [exact T3|]. right. exists n. auto.
+  - rewrite read_buf in E by exact Hne. cbn [r_buf r_nonce] in E. injection E as <- <- <-.
+    destruct (take_facts (skipn n data0) [] cap Hne Hcap) as (T1 & T2 & T3).
+    rewrite !app_nil_r in T3.
+    set (n' := Nat.min cap (length (skipn n data0))) in *.
+    eexists _, _. split; [reflexivity|]. split; [exact T1|]. split; [exact T2|].
+    split; [exact T3|]. right. exists (n' + n)%nat. split; [lia|].
+    unfold st_after. rewrite !skipn_add. auto.
+Qed.
+
+Lemma recv_one_frame : N.of_nat (length (enc m)) <= max_msg_size ->
+  auth_recv k (EvBlock c0 :: tail)
+    = ({| r_buf := extra; r_nonce := nonce_of P0 1 |}, dec (enc m), tail).
+Proof.
+  intro Hm. unfold ModelAuth.auth_recv.
+  destruct (read_delimited key cipher open k {| r_buf := []; r_nonce := zero_nonce |}
+              (EvBlock c0 :: tail)) as [[st1 r1] conn1] eqn:Ed.
+  apply (delimited_spec key cipher open k inv1 False False inv1_step (enc m) extra) in Ed;
+    [| exact Hm |].
+  2:{ left. split; [reflexivity|]. split; [reflexivity|].
+      unfold data0, auth_wire_bytes. rewrite <- app_assoc. reflexivity. }
+  destruct Ed as [[] | [[[] _] | [-> I]]].
+  destruct I as [(_ & _ & X) | (n & Hn & -> & -> & X)].
+  - exfalso. apply (f_equal (@length N)) in X. unfold data0, auth_wire_bytes in X.
+    rewrite !app_length in X.
+    pose proof (put_uvarint_f_length 9 (N.of_nat (length (enc m)))) as L.
+    unfold put_uvarint in X. lia.
+  - unfold st_after. rewrite <- X. reflexivity.
+Qed.
+
+Lemma write_one_frame : (1 <= length data0)%nat ->
+  let w := write key cipher seal pool k zero_nonce data0 in
+  w_sent w = [c0] /\ w_nonce w = nonce_of P0 1 /\ w_panic w = false /\ w_n w = length data0.
+Proof.
+  intros H1 w. unfold w, write. cbn [write_loop].
+  replace (0 <? length data0)%nat with true by (symmetry; apply Nat.ltb_lt; lia).
+  replace (data_max_size <? length data0)%nat with false by (symmetry; apply Nat.ltb_ge; lia).
+  change zero_nonce with (nonce_of P0 0).
+  rewrite (incr_nonce_of P0 0 P0_len) by reflexivity.
+  change (0 =? max_uint64) with false. cbv iota.
+  assert (Hnil : forall f n, write_loop key cipher seal pool f k n [] =
+            {| w_n := 0; w_calls := []; w_sent := []; w_wire := []; w_nonce := n; w_panic := false |})
+    by (intros [|f] n; reflexivity).
+  rewrite Hnil. cbn [w_sent w_nonce w_panic w_n]. rewrite Nat.add_0_r. auto.
+Qed.
+
+Lemma frame_keeps_rest : N.of_nat (length (enc m)) <= max_msg_size ->
+  let w := write key cipher seal pool k zero_nonce data0 in
+  w_panic w = false /\ length (w_sent w) = 1%nat /\ w_nonce w = nonce_of P0 1 /\
+  auth_recv k (map EvBlock (w_sent w) ++ tail)
+    = ({| r_buf := extra; r_nonce := nonce_of P0 1 |}, dec (enc m), tail).
+Proof.
+  intros Hm w.
+  assert (H1 : (1 <= length data0)%nat).
+  { unfold data0, auth_wire_bytes, put_uvarint. rewrite !app_length.
+    pose proof (put_uvarint_f_length 9 (N.of_nat (length (enc m)))). lia. }
+  destruct (write_one_frame H1) as (W1 & W2 & W3 & _). fold w in W1, W2, W3.
+  rewrite W1. cbn [map app length]. repeat split; auto. apply recv_one_frame. exact Hm.
+Qed.
+End OneFrame.
+End CarryData.
